@@ -92,11 +92,35 @@ pub fn gen(tier: &str, rng: &mut Rng, emit: &mut dyn FnMut(String)) {
             emit(format!("pfx {} {}", hex(p.as_bytes()), hex(q.as_bytes())));
         }
     }
+    // texts beyond the small scope as tokens: whole-token prefixes / suffixes, string-but-not-token neighbours, self pairs
+    for s in boundary_texts(tier) {
+        let e = rfc_escape(&s);
+        let a = format!("/{e}");
+        let b = format!("/x/{e}");
+        let c = format!("/{e}/y");
+        let d = format!("/{e}y");
+        for (p, q) in [(&a, &a), (&b, &a), (&c, &a), (&d, &a), (&a, &d), (&b, &c), (&c, &c)] {
+            emit(format!("pfx {} {}", hex(p.as_bytes()), hex(q.as_bytes())));
+        }
+        emit(format!("pfx {} {}", hex(a.as_bytes()), hex(b"")));
+        emit(format!("pfx {} {}", hex(b.as_bytes()), hex(b"/x")));
+    }
+    for n in MANY {
+        let p: String = (0..n).map(|i| format!("/t{}", i % 7)).collect();
+        let q: String = (0..n - 1).map(|i| format!("/t{}", i % 7)).collect();
+        let r = format!("{q}/zz");
+        for (a, b) in [(&p, &q), (&q, &p), (&p, &r), (&r, &p), (&p, &p)] {
+            emit(format!("pfx {} {}", hex(a.as_bytes()), hex(b.as_bytes())));
+        }
+        let tail: String = (n / 2..n).map(|i| format!("/t{}", i % 7)).collect();
+        emit(format!("pfx {} {}", hex(p.as_bytes()), hex(tail.as_bytes())));
+    }
     let n = if tier == "thorough" { 50_000 } else { 3_000 };
     for i in 0..n {
         // mostly short; every 25th pair has hundreds of tokens, every 40th has tokens of hundreds of bytes
         let k = if i % 25 == 0 { 50 + rng.below(600) } else { rng.below(6) };
-        let tl = if i % 40 == 0 { 700 } else { 3 };
+        // (both at once would give MB-sized pointers, on which the extracted model is quadratic: long tokens only on shorter pointers)
+        let tl = if i % 40 == 0 && k < 50 { 700 } else if i % 40 == 0 { 60 } else { 3 };
         let base: String = (0..k).map(|_| format!("/{}", rfc_escape(&super::token::random_text(rng, tl)))).collect();
         let j = if i % 25 == 0 { rng.below(300) } else { rng.below(4) };
         let suffix: String = (0..j).map(|_| format!("/{}", rfc_escape(&super::token::random_text(rng, 3)))).collect();
